@@ -238,6 +238,23 @@ def check(run):
             run.broken_build["failed_chunks"] = [f"{a}Chunk{k}" for (a, k) in failed]
             run.coverage["discharged"] += 2 * (n_chunks - len(failed))
     stats = {}
+    x64_failed = [c for c in getattr(run, "broken_build", {}).get("failed_chunks", []) if c.startswith("X64")] if hasattr(run, "broken_build") else []
+    if x64_failed and suspects:
+        # directed search on the x64 side: every instantiation of the suspect mnemonics, compiled and read back by the disassembler
+        try:
+            import x64sweep
+            x64sweep.ONLY_MNEMONICS = set(suspects)
+            rep = x64sweep.run(limit=None, pairwise=True)
+            x64sweep.ONLY_MNEMONICS = None
+            stats["directed_x64"] = {"instantiations": rep["counts"].get("instantiations", 0)}
+            for u in (rep.get("unexplained") or [])[:3]:
+                ex = u.get("example", {})
+                run.violation("failing-input", {"kind": "x64-entry-inconsistent", "entry": ex.get("entry")},
+                              f"table entry {ex.get('entry')}: `.arch {ex.get('mode')}; {ex.get('line')}` assembles to {ex.get('bytes')}, which the disassembler reads as `{ex.get('llvm')}` ({ex.get('diff')}): "
+                              f"format string, opcode bytes and flags of the entry do not fit together"[:500],
+                              {"stream": "plug", "input": [f"cl ; .arch {ex.get('mode')} ; {ex.get('line')}"], "record": u})
+        except Exception as e:       # noqa
+            run.assumptions.append(f"directed x64 search failed: {e}")
     if fs:
         if suspects:
             # directed search first: every form of the suspect mnemonics, full depth
